@@ -173,7 +173,7 @@ theorem lru_held_not_victim {cfg : Cfg} (hn : 0 < cfg.nshards) {c : Cache Lru}
     (hc : CacheInv (lruPolicy capFn) (LruOk capFn) cfg c) (r : Rec) (hr : Cache.protected lruPin c r) (op : Op) :
     (Reason.evict, r) ∉ (Cache.step (lruPolicy capFn) cfg c op).2.leaves ∧
     (Cache.protected lruPin (Cache.step (lruPolicy capFn) cfg c op).1 r ∨ op = .drop r.id ∨ op = .touch r.key ∨
-      op = .remove r.key ∨ (∃ v w h p, op = .ins r.key v w h p) ∨ op = .clear) :=
+      op = .remove r.key ∨ (∃ v w h p l a, op = .ins r.key v w h p l a) ∨ op = .clear) :=
   protected_step (lru_lawful capFn) (lru_protects capFn) hn hc r hr op
 
 /-- **lru_pinned_is_held**: in every reachable state every pinned record has an outstanding handle
@@ -209,9 +209,9 @@ theorem lru_pinned_is_held (cfg : Cfg) (hn : 0 < cfg.nshards) (cap : Nat) (ops :
 fits the shard leaves the shard within its capacity. -/
 theorem lru_no_leak {cfg : Cfg} (hn : 0 < cfg.nshards) {c : Cache Lru}
     (hc : CacheInv (lruPolicy capFn) (LruOk capFn) cfg c) (hh : HeldInv lruPin c) (hnone : c.held = [])
-    (key ver weight : Nat) (hint : Hint) (s : Shard Lru)
+    (key ver weight : Nat) (hint : Hint) (loc : Loc) (age : Age) (s : Shard Lru)
     (hs : c.shards[cfg.shardOf (cfg.H key)]? = some s) (hw : weight ≤ s.cap) :
-    ∃ s', (Cache.step (lruPolicy capFn) cfg c (.ins key ver weight hint false)).1.shards[cfg.shardOf (cfg.H key)]? = some s' ∧
+    ∃ s', (Cache.step (lruPolicy capFn) cfg c (.ins key ver weight hint false loc age)).1.shards[cfg.shardOf (cfg.H key)]? = some s' ∧
       s'.usage ≤ s'.cap := by
   have hsi := hc.shard _ s hs
   have hpin : s.ev.pin = [] := by
@@ -222,7 +222,7 @@ theorem lru_no_leak {cfg : Cfg} (hn : 0 < cfg.nshards) {c : Cache Lru}
       rw [hnone] at this
       simp [heldCnt] at this
   have hfr := hc.fresh _ s hs
-  have sp := emplace_spec (r := { id := c.nextId, key, hash := cfg.H key, ver, weight, hint, phantom := false })
+  have sp := emplace_spec (r := { id := c.nextId, key, hash := cfg.H key, ver, weight, hint, phantom := false, loc, age })
     (lru_lawful capFn) hsi rfl (fun x hx => Nat.ne_of_lt (hfr x hx))
   have hlt : cfg.shardOf (cfg.H key) < c.shards.length := (List.getElem?_eq_some_iff.mp hs).1
   simp only [Cache.step, hs]
